@@ -275,9 +275,12 @@ fn generate_family(id: &str, run_seed: u64, _thorough: bool) -> Plan {
             } else if pick < 90 {
                 // a create / delete handled while the topic's mailbox is full
                 f_topicburst(run_seed)
-            } else if pick < 96 {
+            } else if pick < 94 {
                 // a slow, then abandoned create while the name is deleted and created again
                 f_recreate(run_seed)
+            } else if pick < 97 {
+                // overlapping deletes of a topic, one of them slow, while the name is created again
+                f_retopic(run_seed)
             } else {
                 f_dupcreate(run_seed).with_tag("names")
             }
@@ -304,7 +307,11 @@ fn generate_family(id: &str, run_seed: u64, _thorough: bool) -> Plan {
             }
         }
         "C13" => {
-            if pick < 88 {
+            if pick >= 94 {
+                // overlapping deletes of a topic, one of them slow, while the name is created again:
+                // what the listings say afterwards
+                f_retopic(run_seed)
+            } else if pick < 84 {
                 f_listing(run_seed, mix2(run_seed, 0xB16) % 1000 < if _thorough { 20 } else { 12 })
             } else {
                 // listings of names with racing / failed / abandoned creates and deletes behind them
@@ -325,7 +332,11 @@ fn generate_family(id: &str, run_seed: u64, _thorough: bool) -> Plan {
         }
         "C17" => f_hostile(run_seed),
         "C15" => {
-            if pick < 45 {
+            if pick >= 90 {
+                // a Pull that is (re)issued while the subscription's mailbox is full: it still returns
+                // what is available
+                f_consumers_saturated(run_seed)
+            } else if pick < 45 {
                 f_limits(run_seed, true)
             } else if pick < 70 {
                 f_lease(run_seed, &LeaseOpts { modacks: false, limits: true })
